@@ -18,12 +18,18 @@ def u3(run: Run, cy: CyProgram):
     f = cy.func(TS, "_twins_s")
     if f is None:
         raise AnalysisError("_twins_s vanished")
-    outer = [s for s in f.body if s.k == "for" and pp(s.a[1]).replace(" ", "") == "range(N)"]
+    # the per-series loop is the single top-level loop over range(<first int
+    # parameter>); the read-only input is the 3-D buffer
+    ints = [n for n, t in f.args if t.kind == "simple" and t.name == "int"]
+    nser = ints[0] if ints else "N"
+    outer = [s for s in f.body if s.k == "for"
+             and pp(s.a[1]).replace(" ", "") == f"range({nser})"]
     if len(outer) != 1:
-        raise AnalysisError(f"{f.where}: per-series loop `for i in range(N)` not found")
+        raise AnalysisError(f"{f.where}: per-series loop `for i in range({nser})` "
+                            f"not found")
     arrays = {n for n, t in f.args if t.kind == "buffer"} | \
         {n for n, (t, _, _) in f.locals.items() if t.kind == "buffer"}
-    arrays -= {"embedding_array"}
+    arrays -= {n for n, t in f.args if t.kind == "buffer" and t.ndim == 3}
     written, problems = stale_work_arrays(outer[0].a[2], arrays)
     for a in sorted(written):
         bad = [st for (x, st) in problems if x == a]
